@@ -92,6 +92,20 @@ func VerifH20b() {
 	w.conn = vNewConn(nil)
 	w.ses, w.rd, w.wr = vSession(srv, w.conn)
 	w.ctx = vCtx(srv)
+	// the same statement name may have been parsed before with another number of
+	// placeholders: Describe announces the latest definition's count
+	switch vChoose(4) {
+	case 1:
+		first := vCat(vCStr(nil), vCStr([]byte("$3")), vU16(0))
+		vAssert("first-parse-ok", w.ses.handleParse(w.ctx, &buffer.Reader{Msg: first, MaxMessageSize: 64}, w.wr) == nil)
+		vReach("reparsed-after-three-placeholders")
+	case 2:
+		first := vCat(vCStr(nil), vCStr([]byte("??")), vU16(0))
+		vAssert("first-parse-ok", w.ses.handleParse(w.ctx, &buffer.Reader{Msg: first, MaxMessageSize: 64}, w.wr) == nil)
+	case 3:
+		first := vCat(vCStr(nil), vCStr([]byte("$1")), vU16(0))
+		vAssert("first-parse-ok", w.ses.handleParse(w.ctx, &buffer.Reader{Msg: first, MaxMessageSize: 64}, w.wr) == nil)
+	}
 	// the Parse message may pre-specify any number of parameter types; whatever
 	// it says, Describe announces what the ParseFn declared
 	np := vChoose(4)
